@@ -263,8 +263,13 @@ class DistinctCountCheck(AbstractCheck):
         Validate that the expression refers only to the count and Python's builtin functions. Evaluating it once
         does not reveal unknown names, for example in the right operand of an ``or``.
         """
-        for node in ast.walk(ast.parse(self._expression, mode="eval")):
-            if not isinstance(node, ast.Name):
+        nodes = list(ast.walk(ast.parse(self._expression, mode="eval")))
+        # Names the expression defines itself: variables of comprehensions and parameters of lambda expressions.
+        names_defined_by_expression = set(
+            node.id for node in nodes if isinstance(node, ast.Name) and isinstance(node.ctx, ast.Store)
+        ) | set(node.arg for node in nodes if isinstance(node, ast.arg))
+        for node in nodes:
+            if not isinstance(node, ast.Name) or node.id in names_defined_by_expression:
                 continue
             is_count_name = node.id in (DistinctCountCheck._COUNT_NAME, self._field_name_to_count)
             # NOTE: Use vars() instead of hasattr() because the latter also finds attributes every module has,
